@@ -66,18 +66,15 @@ theorem id_then (f : Tensor R) (hf : f.WF) : thenCore (Tensor.id f.dom) f = f :=
     (fun j hj => by rw [id_entry f.dom hi' hj])]
   exact sumOver_delta hi' _
 
-theorem tensor_id_nil (f : Tensor R) (hf : f.WF) :
-    f.tensor (Tensor.id []) = ⟨f.dom ++ [], f.cod ++ [], f.arr⟩ := by
-  have hw : (⟨f.dom ++ [], f.cod ++ [], f.arr⟩ : Tensor R).WF := by
-    simpa [Tensor.WF] using hf
-  apply ext_entry (tensor_wf f _ hf (id_wf _)) hw rfl rfl
+theorem tensor_id_nil (f : Tensor R) (hf : f.WF) : f.tensor (Tensor.id []) = f := by
+  apply ext_entry (tensor_wf f _ hf (id_wf _)) hf (by simp) (by simp)
   intro x hx
   obtain ⟨a, c, b, d, rfl, ha, hc, hb, hd⟩ := split4 hx
   have hc' : c = [] := inRange_nil_iff.1 hc
   have hd' : d = [] := inRange_nil_iff.1 hd
   subst hc' hd'
   rw [tensor_entry f _ hf (id_wf _) ha hb hc hd, id_entry [] (i := []) (j := []) trivial trivial]
-  simp [Tensor.entry]
+  simp
 
 theorem id_nil_tensor (f : Tensor R) (hf : f.WF) : (Tensor.id []).tensor f = f := by
   apply ext_entry (tensor_wf _ f (id_wf _) hf) hf rfl rfl
